@@ -128,6 +128,19 @@ def uniform_priors_native_harness():
                     res[("lotka-sample", seed, n)] = ("ret", tuple(s_.shape) == (n, 4) and inside)
                 except Exception as e:
                     res[("lotka-sample", seed, n)] = ("raise", type(e).__name__)
+        # MG1Uniform outside its support (noise = (p0, p1 - p0, p2) outside the box): torch's Uniform raises ValueError under its default argument
+        # validation; a variant that returns instead must give density zero (log-density -inf in some coordinate).  Either is accepted, a finite
+        # density is not (it would add mass outside the sheared box).
+        mg = DU.MG1Uniform(low=torch.zeros(3), high=torch.tensor([10.0, 10.0, 1.0 / 3.0]))
+        for name, pt in (("noise1-below", [5.0, 2.0, 0.1]), ("noise0-above", [11.0, 12.0, 0.1]), ("noise1-above", [5.0, 20.0, 0.1]), ("noise2-above", [5.0, 6.0, 0.5]),
+                         ("noise0-below", [-1.0, 0.0, 0.1]), ("noise2-below", [5.0, 6.0, -0.1]), ("noise1-below-small", [9.0, 8.5, 0.2])):
+            try:
+                v = mg.log_prob(torch.tensor([pt]))
+                res[("mg1-outside", name)] = ("ret", bool(torch.isinf(v.sum(-1)).all() and (v.sum(-1) < 0).all()))
+            except ValueError:
+                res[("mg1-outside", name)] = ("ret", True)
+            except Exception as e:
+                res[("mg1-outside", name)] = ("raise", type(e).__name__)
         try:
             v = lv.log_prob(torch.tensor([[3.0, 0.0, 0.0, 0.0]]))
             res[("lotka-log_prob-outside",)] = ("ret", bool(torch.isinf(v).all() and (v < 0).all()))
@@ -153,7 +166,7 @@ def uniform_priors_native_harness():
             c["C05.uniform-priors." + key[0]] = c.get("C05.uniform-priors." + key[0], True) and got == ("ret", True)
         return c
     hn = Harness("uniform_priors_native[]", run, post, native_call=lambda h, inp: grid(), native_clauses=native_clauses, sample=lambda h, rng: {}, check_defined=False,
-                 functions=[DU.BoxUniform.__init__, DU.LotkaVolterraOscillating.sample, DU.LotkaVolterraOscillating.log_prob])
+                 functions=[DU.BoxUniform.__init__, DU.LotkaVolterraOscillating.sample, DU.LotkaVolterraOscillating.log_prob, DU.MG1Uniform.log_prob])
     hn.native_float32 = False
     return hn
 
@@ -242,10 +255,16 @@ def mg1_sample_harness():
         for l, u in zip(P(low), P(high)): ctx.assume(l < u)
         d = DU.MG1Uniform(low=low, high=high)
         s = d.sample((n,))
-        return s, d._to_noise(s)
+        return s, d._to_noise(s), d.mean
 
     def post(h, ctx, value):
-        smp, nz = value
+        smp, nz, mean = value
+        pm = P(mean)
+        ensure(h, ctx, "C05.mg1.mean-shape", z3.BoolVal(tuple(pm.shape) == (D,)))
+        if tuple(pm.shape) == (D,):
+            # expectation of the parameters p = noise @ A_inv with noise_i ~ U[low_i, high_i): (m0, m0 + m1, m2) for the box centre m
+            l_, h_ = P(h.inputs["low"]), P(h.inputs["high"])
+            ensure(h, ctx, "C05.mg1.mean-is-expectation-of-the-parameters", z3.And(2 * pm[0] == l_[0] + h_[0], 2 * pm[1] == l_[0] + h_[0] + l_[1] + h_[1], 2 * pm[2] == l_[2] + h_[2]))
         pl, ph = P(h.inputs["low"]), P(h.inputs["high"])
         ps, pn = P(smp), P(nz)
         ensure(h, ctx, "C05.mg1.sample-shape", z3.BoolVal(tuple(ps.shape) == (n, D) and tuple(pn.shape) == (n, D)))
@@ -268,20 +287,23 @@ def mg1_sample_harness():
         torch.manual_seed(0)
         d = DU.MG1Uniform(low=tt(inp["low"], torch.float32), high=tt(inp["high"], torch.float32))
         s = d.sample((n,))
-        return s, d._to_noise(s)
+        return s, d._to_noise(s), d.mean
 
     def native_clauses(h, inp, r):
-        smp, nz = r
+        smp, nz, mean = r
         lo, hi = tt(inp["low"], torch.float32), tt(inp["high"], torch.float32)
         A = torch.tensor([[1.0, -1, 0], [0, 1, 0], [0, 0, 1]], dtype=smp.dtype)
         z = smp @ A
-        return {"C05.mg1.sample-noise-inside-box": bool(((z >= lo - 1e-6) & (z <= hi + 1e-6)).all()), "C05.mg1.sample-shape": tuple(smp.shape) == (n, D)}
+        m = (lo + hi) / 2
+        want = torch.stack([m[0], m[0] + m[1], m[2]])
+        return {"C05.mg1.sample-noise-inside-box": bool(((z >= lo - 1e-6) & (z <= hi + 1e-6)).all()), "C05.mg1.sample-shape": tuple(smp.shape) == (n, D),
+                "C05.mg1.mean-is-expectation-of-the-parameters": tuple(mean.shape) == (D,) and bool(torch.allclose(mean, want.to(mean.dtype), atol=1e-5))}
 
     def sample(h, rng):
         low = rng.normal(size=(D,)); w = rng.uniform(0.5, 2.0, size=(D,))
         return {"low": low, "high": low + w}
     hn = Harness("MG1Uniform_sample[]", run, post, native_call=native_call, native_clauses=native_clauses, sample=sample,
-                 functions=[DU.MG1Uniform.sample, DU.MG1Uniform._to_noise, DU.MG1Uniform._to_parameters])
+                 functions=[DU.MG1Uniform.sample, DU.MG1Uniform._to_noise, DU.MG1Uniform._to_parameters] + ([DU.MG1Uniform.mean.fget] if 'mean' in DU.MG1Uniform.__dict__ else []))
     hn.native_float32 = False
     return hn
 
